@@ -734,4 +734,5 @@ def check(ctx):
         k, seen = semantics.F_restrict_native(ctx, lib, rule, only={"Adf::stability_check", "Adf::apply_interpretation", "Adf::grounded_internal"})
         ctx.floor(rule, "native restriction sites", k, 3)
         deps.semantics_base(ctx, lib)
+        deps.nogood_primitives(ctx, lib)
     deps.cli_plumbing(ctx)
